@@ -545,7 +545,8 @@ fn compute_intersection_residue_class(
     // ```
     let (gcd, left_inverse, right_inverse) = extended_gcd(stride_left, stride_right);
 
-    if base_left % gcd != base_right % gcd {
+    // Note that one has to compare the difference to zero, since the remainders of negative numbers are negative.
+    if (base_left - base_right) % gcd != 0 {
         // The residue classes do not intersect, thus the intersection is empty.
         Ok(None)
     } else {
@@ -560,7 +561,8 @@ fn compute_intersection_residue_class(
             + ((base_left % lcm) / gcd * (right_inverse * stride_right)) % lcm // = base_left / gcd * gcd (modulo stride_left)
             + base_left % gcd; // = base_left % gcd = base_right % gcd
                                // Ensure that the residue class is not negative
-        let residue_class = (residue_class + lcm) % lcm;
+        // (note that the sum of the three summands may be smaller than `-lcm`)
+        let residue_class = ((residue_class % lcm) + lcm) % lcm;
 
         // Since we cannot rule out integer overflows for all possible inputs,
         // we need to check the correctness of the result.
